@@ -50,18 +50,18 @@ func readV1Header(buf []byte, r io.Reader) (*Header, error) {
 	}
 
 	if bytes.Equal(buf[6:10], []byte("TCP6")) {
-		// Minimum TCP6 line is `PROXY TCP6 ::1 ::1 2 3\r\n` which is 24 bytes, minus the 13 we have
-		// already read which leaves 11, so we optimistically read them now.
-		if _, err := io.ReadFull(r, buf[13:24]); err != nil {
+		// Minimum TCP6 line is `PROXY TCP6 :: :: 0 0\r\n` which is 22 bytes, minus the 13 we have
+		// already read which leaves 9, so we optimistically read them now. Reading more would
+		// consume bytes that follow a minimal header.
+		if _, err := io.ReadFull(r, buf[13:22]); err != nil {
 			return nil, fmt.Errorf("while reading tcp6 addresses: %w", err)
 		}
 
-		// fmt.Printf("cRLF: %X\n", buf[22:24])
 		// If the optimistic read ended in cRLF then no more bytes to read
-		if bytes.Equal(buf[22:24], []byte(cRLF)) {
-			return parseV1Header(buf[0:22])
+		if bytes.Equal(buf[20:22], []byte(cRLF)) {
+			return parseV1Header(buf[0:20])
 		}
-		idx = 24
+		idx = 22
 	}
 
 	if idx == 0 {
